@@ -399,6 +399,52 @@ theorem firstMin_isSome (l : List (Ind F)) (hne : l ≠ []) (h : ∀ x ∈ l, x.
     simp only [firstMin, hv]
     exact firstMinGo_isSome xs x v (fun y hy => h y (by simp [hy]))
 
+/-- The clamp stage of `MinMaxPheromoneUpdate`. -/
+def clampStage (lo hi : F) (pm2 : PM F) : Option (PM F) :=
+  if lo ≤ hi then some { pm2 with inner := pm2.inner.map (clamp lo hi) }
+  else if pm2.inner.isEmpty then some pm2 else none
+
+theorem mmasUpdate_of_min (pm : PM F) (ρ hi lo : F) (pop : List (Ind F)) (ind : Ind F) (o : F)
+    (hmin : firstMin (pop.drop 1) = some (ind, o)) :
+    mmasUpdate pm ρ hi lo pop =
+      (reward (pm.scale (1 - ρ)) (1 / o) (edges ind.route)).bind (clampStage lo hi) := by
+  cases hl : pop.drop 1 with
+  | nil => rw [hl] at hmin; simp [firstMin] at hmin
+  | cons x xs =>
+    rw [hl] at hmin
+    simp only [mmasUpdate, hl, hmin, clampStage]
+    cases reward (pm.scale (1 - ρ)) (1 / o) (edges ind.route) <;> rfl
+
+theorem mmasUpdate_of_nil (pm : PM F) (ρ hi lo : F) (pop : List (Ind F)) (hl : pop.drop 1 = []) :
+    mmasUpdate pm ρ hi lo pop = clampStage lo hi (pm.scale (1 - ρ)) := by
+  simp only [mmasUpdate, hl, clampStage]
+
+theorem mmasUpdate_cases (pm : PM F) (ρ hi lo : F) (pop : List (Ind F)) (pm' : PM F)
+    (h : mmasUpdate pm ρ hi lo pop = some pm') : ∃ pm2, clampStage lo hi pm2 = some pm' := by
+  cases hl : pop.drop 1 with
+  | nil => exact ⟨_, by rw [← mmasUpdate_of_nil pm ρ hi lo pop hl]; exact h⟩
+  | cons x xs =>
+    cases hmin : firstMin (pop.drop 1) with
+    | none =>
+      rw [hl] at hmin
+      simp [mmasUpdate, hl, hmin] at h
+    | some p =>
+      obtain ⟨ind, o⟩ := p
+      rw [mmasUpdate_of_min pm ρ hi lo pop ind o hmin] at h
+      cases hr : reward (pm.scale (1 - ρ)) (1 / o) (edges ind.route) with
+      | none => simp [hr] at h
+      | some pm2 => exact ⟨pm2, by simpa [hr] using h⟩
+
+theorem clampStage_get? (lo hi : F) (hb : lo ≤ hi) (pm2 : PM F) (hw2 : pm2.wf = true) :
+    ∃ pm', clampStage lo hi pm2 = some pm' ∧ pm'.dim = pm2.dim ∧ pm'.wf = true ∧
+      ∀ i j, i < pm2.dim → j < pm2.dim → pm'.get? i j = (pm2.get? i j).map (clamp lo hi) := by
+  have hw3 : (PM.wf { pm2 with inner := pm2.inner.map (clamp lo hi) }) = true := by
+    simpa [PM.wf] using hw2
+  refine ⟨{ pm2 with inner := pm2.inner.map (clamp lo hi) }, by simp [clampStage, hb], rfl, hw3, ?_⟩
+  intro i j hi' hj'
+  rw [get?_eq _ hw3 (by exact hi') (by exact hj'), get?_eq pm2 hw2 hi' hj']
+  simp
+
 /-- `MinMaxPheromoneUpdate` given the rewarded individual. -/
 theorem mmasUpdate_spec (pm : PM F) (ρ hi lo : F) (pop : List (Ind F)) (hwf : pm.wf = true)
     (ind : Ind F) (o : F) (hmin : firstMin (pop.drop 1) = some (ind, o))
@@ -408,22 +454,26 @@ theorem mmasUpdate_spec (pm : PM F) (ρ hi lo : F) (pop : List (Ind F)) (hwf : p
   have hw1 : (pm.scale (1 - ρ)).wf = true := by rw [scale_wf]; exact hwf
   obtain ⟨pm2, h2, hd2, hw2, hg2⟩ :=
     reward_spec (1 / o) (edges ind.route) (pm.scale (1 - ρ)) hw1 (edgesIn_of_route hr)
-  have hw3 : (PM.wf { pm2 with inner := pm2.inner.map (clamp lo hi) }) = true := by
-    simpa [PM.wf] using hw2
-  refine ⟨{ pm2 with inner := pm2.inner.map (clamp lo hi) }, ?_, hd2, hw3, ?_⟩
-  · have hmin' : firstMin pop.tail = some (ind, o) := by simpa using hmin
-    simp [mmasUpdate, hmin', h2, hb]
-  · intro i j hi' hj'
-    have hd2' : pm2.dim = pm.dim := hd2
-    rw [get?_eq _ hw3 (by simpa [hd2'] using hi') (by simpa [hd2'] using hj')]
-    have e2 := get?_eq pm2 hw2 (hd2' ▸ hi') (hd2' ▸ hj')
-    have e3 := hg2 i j hi' hj'
-    rw [scale_get? pm hwf _ hi' hj'] at e3
-    obtain ⟨x, hx⟩ := get?_isSome pm hwf hi' hj'
-    rw [e3, hx] at e2
-    simp only [List.getElem?_map, ← e2]
-    have hmin' : firstMin pop.tail = some (ind, o) := by simpa using hmin
-    simp [mmasSpec, hmin', getD_of_get? pm hx]
+  have hd2' : pm2.dim = pm.dim := hd2
+  obtain ⟨pm', h3, hd3, hw3, hg3⟩ := clampStage_get? lo hi hb pm2 hw2
+  refine ⟨pm', by rw [mmasUpdate_of_min pm ρ hi lo pop ind o hmin, h2]; exact h3, by rw [hd3, hd2'], hw3, ?_⟩
+  intro i j hi' hj'
+  rw [hg3 i j (hd2' ▸ hi') (hd2' ▸ hj'), hg2 i j hi' hj', scale_get? pm hwf _ hi' hj']
+  obtain ⟨x, hx⟩ := get?_isSome pm hwf hi' hj'
+  simp only [hx, Option.map_some, mmasSpec, hmin, getD_of_get? pm hx]
+
+/-- `MinMaxPheromoneUpdate` with no sampled individual: evaporate and clamp. -/
+theorem mmasUpdate_spec_nil (pm : PM F) (ρ hi lo : F) (pop : List (Ind F)) (hwf : pm.wf = true)
+    (hl : pop.drop 1 = []) (hb : lo ≤ hi) :
+    ∃ pm', mmasUpdate pm ρ hi lo pop = some pm' ∧ pm'.dim = pm.dim ∧ pm'.wf = true ∧
+      ∀ i j, i < pm.dim → j < pm.dim → pm'.get? i j = some (mmasSpec pm ρ hi lo pop i j) := by
+  have hw1 : (pm.scale (1 - ρ)).wf = true := by rw [scale_wf]; exact hwf
+  obtain ⟨pm', h3, hd3, hw3, hg3⟩ := clampStage_get? lo hi hb (pm.scale (1 - ρ)) hw1
+  refine ⟨pm', by rw [mmasUpdate_of_nil pm ρ hi lo pop hl]; exact h3, hd3, hw3, ?_⟩
+  intro i j hi' hj'
+  rw [hg3 i j hi' hj', scale_get? pm hwf _ hi' hj']
+  obtain ⟨x, hx⟩ := get?_isSome pm hwf hi' hj'
+  simp only [hx, Option.map_some, mmasSpec, hl, firstMin, getD_of_get? pm hx]
 
 end
 
